@@ -735,8 +735,18 @@ func c17Variants() []Variant {
 // refundGas will leave consumed (shared by C17.T5 and C07.P6).
 func converterGasFigures(c *Ctx, w *World) {
 	// what a converter reports as used must be what refundGas will leave consumed
+	var work []*ssa.Function
 	for _, cv := range []struct{ pkg, recv, name string }{{"staking", "TxConverter", "ApplyMessage"}, {"core", "StateTransition", "TransitionDb"}} {
-		fn := w.Fn(cv.pkg, cv.recv, cv.name)
+		work = append(work, w.Fn(cv.pkg, cv.recv, cv.name))
+	}
+	seenFn := map[*ssa.Function]bool{}
+	for len(work) > 0 {
+		fn := work[0]
+		work = work[1:]
+		if seenFn[fn] {
+			continue
+		}
+		seenFn[fn] = true
 		c.sawFunc(fname(fn))
 		v4 := constOf(w, "params", "YouV4")
 		for _, b := range fn.Blocks {
@@ -759,6 +769,16 @@ func converterGasFigures(c *Ctx, w *World) {
 			fig := stripConv(res)
 			c.sites++
 			key := fmt.Sprintf("%s#reported-gas@%s", fname(fn), blockOrdinal(fn, b))
+			// the whole result is that of a helper of this package (return h(...)): judged at the helper's returns
+			if ex, isEx := fig.(*ssa.Extract); isEx && ex.Index == 1 {
+				if cc, isCall := ex.Tuple.(*ssa.Call); isCall {
+					if g := cc.Call.StaticCallee(); g != nil && g.Pkg == fn.Pkg && g.Blocks != nil && len(seenFn) < 6 && g.Signature.Results().Len() == fn.Signature.Results().Len() {
+						work = append(work, g)
+						c.Pass(key, r.Pos(), "reports what "+fname(g)+" reports (judged at its returns)")
+						continue
+					}
+				}
+			}
 			if n, isC := constInt(fig); isC && n == 0 {
 				// refused before anything was charged (error return)
 				c.Pass(key, r.Pos(), "reports 0 together with an error")
